@@ -62,7 +62,8 @@ CLAIMED = os.environ.get("VERIF_CLAIMED", "").split(",") if os.environ.get("VERI
 def main():
     claimed = CLAIMED
     if claimed is None:
-        claimed = [p for p in sorted(P) if os.path.exists(os.path.join(VERIF, "coq", "properties", p + ".v"))]
+        proj = open(os.path.join(VERIF, "coq", "_CoqProject")).read().split()
+        claimed = [p for p in sorted(P) if "properties/%s.v" % p in proj and os.path.exists(os.path.join(VERIF, "coq", "properties", p + ".v"))]
     commits = subprocess.run(["git", "-C", "/repo", "log", "--format=%H %s"], capture_output=True, text=True).stdout.splitlines()
     hook_commits = [c.split(" ")[0] for c in commits if "verif hooks" in c]
     m = {
